@@ -1,6 +1,6 @@
 From Coq Require Import List Bool Arith.
 Import ListNotations.
-From LinDBV.C19 Require Import Model.
+From LinDBV.C19 Require Import Model Leaf.
 
 (* observation of one pipeline execution on the implementation:
    cbs: for each callback invocation, true = nil error; completed: number of stages whose Complete() ran;
@@ -17,3 +17,12 @@ Definition check (root : stage) (o : obs) : nat * nat :=
   (if bools_eqb (callbacks s) (cbs o) && (finished s =? completed o) && Bool.eqb (negb (failed s)) (negb (failed_seen o))
       && (tails_of root =? tails o) then 0 else 1,
    if negb (hang o) && bools_eqb (cbs o) [negb (failed_seen o)] && ((unfinished_at_cb o =? 0) || any_panic o) then 0 else 1).
+
+(* one task request handed to the leaf's handler: the responses captured from the stream for its request id
+   (true = no error message), after the worker pool was drained *)
+Definition check_leaf (f : fate) (resps : list bool) : nat * nat :=
+  let model := match f with
+               | Refused => [false]
+               | Piped root nf => map (fun ok => ok || nf) (callbacks (drain (size_acts (body root) + 2) (init root)))
+               end in
+  (if bools_eqb model resps then 0 else 1, if bools_eqb resps [succeeds f] then 0 else 1).
